@@ -151,9 +151,16 @@ def case(spec):
     ds[rng.random((ns2, n, nb)) < 0.1] = 0.0
     ds[:, 0, :] += 1e-3
     ds = ds / ds.sum(axis=1, keepdims=True)
-    fd2 = sp.brdf.create_from_directional_scattering(
-        src2.copy(), dirs.copy(), pf.FrequencyData(ds, 100.0 * (1 + np.arange(nb))), _freqdata([a], nb))
+    ds_data = pf.FrequencyData(ds.copy(), 100.0 * (1 + np.arange(nb)))
+    fd2 = sp.brdf.create_from_directional_scattering(src2.copy(), dirs.copy(), ds_data, _freqdata([a], nb))
     D = _real(fd2, out, tag, "create_from_directional_scattering")
+    D = np.array(D, copy=True)
+    # the same data set used for a second material (another absorption): it still sums to 1 for the
+    # user, so the second BRDF must reflect 1 - a2 as well, and the first one must not change under it
+    a2 = np.round(rng.uniform(0.0, 0.9, nb), 3)
+    fd3 = sp.brdf.create_from_directional_scattering(src2.copy(), dirs.copy(), ds_data, _freqdata([a2], nb))
+    D2 = np.array(_real(fd3, out, tag, "create_from_directional_scattering (second use)"), copy=True)
+    D_after = np.array(_real(fd2, out, tag, "create_from_directional_scattering (first result, later)"), copy=True)
 
     # ---- model
     tok = Tok().cmd("q_brdf_scat").i(n).i(nb).arr(cos_in).arr(w0).arr(mu_ex, "i").arr(s).arr(a)
@@ -228,6 +235,19 @@ def case(spec):
                      % (i, b, ED[i, b], ra), band=b, i=i, got=float(ED[i, b]), want=ra)
         if np.any(D < 0):
             fail("nonneg_directional", "negative entry %.6g" % float(D.min()))
+        ED2 = np.einsum("iob,o->ib", D2, cw)
+        for b in range(nb):
+            ra = 1.0 - a2[b]
+            bad = np.abs(ED2[:, b] - ra) > REL * ra + 1e-300
+            if bad.any():
+                i = int(np.argmax(bad))
+                fail("directional_reuse", "second BRDF built from the SAME directional-scattering data (absorption %r): "
+                     "incident direction %d band %d reflects %.12g, expected 1-a = %.12g"
+                     % (a2.tolist(), i, b, ED2[i, b], ra), band=b, i=i, got=float(ED2[i, b]), want=ra)
+                break
+        if not np.array_equal(D, D_after):
+            fail("directional_reuse", "the BRDF returned by the first call changed when the data set was used again "
+                 "(max abs change %.3g)" % float(np.abs(D - D_after).max()))
         if np.any((s > 0) & (s < 1) & (a < 1)):
             out["nontrivial"].append(case_hash(tag))
     elif kind == "generic":
